@@ -9,6 +9,7 @@ mod geom;
 mod sectorops;
 mod cross;
 mod langrun;
+mod asmrun;
 mod malform;
 mod packrun;
 mod codec;
@@ -47,7 +48,9 @@ fn dispatch(toks: &[&str]) -> String {
         "deseq" | "dosbin" | "dostok" | "pack" | "txtb" => packrun::dispatch(toks),
         "malform" => malform::run(toks),
         "wozchunk" | "imdparse" | "dosunbin" | "dasmsweep" => malform::pieces(toks),
-        "tokrt" | "escas" | "escint" | "unesc" | "menc" | "mdec" => langrun::dispatch(toks),
+        "tokrt" | "escas" | "escint" | "unesc" | "menc" | "mdec" | "mfmt" => langrun::dispatch(toks),
+        "dasmrt" => asmrun::dasmrt(toks),
+        "dasmtext" => asmrun::dasmtext(toks),
         "cells" => cross::cells(toks),
         "cross" => cross::cross(toks),
         "fsh" => fsrun::run(toks),
